@@ -44,7 +44,7 @@ theorem rpow_as_two (X y : ℝ) (hX : 0 < X) : X ^ y = (2:ℝ) ^ (Real.logb 2 X 
 theorem powf_core (lh L y z r v : ℝ) (hl : |lh - L| ≤ 114 / 10 ^ 7 + (1 / 16777216) * |L|)
     (hz : |z - lh * y| ≤ (1 / 16777216) * |lh * y| + 1 / 10 ^ 40) (hy : |y| ≤ 80) (hLy : |L * y| ≤ 117)
     (hv : v = (2:ℝ) ^ (L * y)) (hr : |r - (2:ℝ) ^ z| ≤ (1734 / 10 ^ 7) * (2:ℝ) ^ z) :
-    |z - L * y| ≤ 1 / 1000 ∧ |r - v| ≤ (25 / 10 ^ 5 + (8 / 10 ^ 6) * |y|) * v := by
+    |z - L * y| ≤ 1 / 1000 ∧ |r - v| ≤ (1832 / 10 ^ 7 + (7914 / 10 ^ 9) * |y|) * v := by
   have hy0 := abs_nonneg y
   have h1 : |lh * y - L * y| ≤ (114 / 10 ^ 7) * |y| + (1 / 16777216) * |L * y| := by
     have e : lh * y - L * y = (lh - L) * y := by ring
@@ -77,12 +77,12 @@ theorem powf_core (lh L y z r v : ℝ) (hl : |lh - L| ≤ 114 / 10 ^ 7 + (1 / 16
   apply mul_le_mul_of_nonneg_right _ hpos.le
   nlinarith
 
-/-- **`powf`** (fast path, both FMA modes): for every positive normal `x`, every finite `y` with `|y| ≤ 80` whose true
+/-- tight form of `powf_close` (fast path, both FMA modes): for every positive normal `x`, every finite `y` with `|y| ≤ 80` whose true
 result lies in `[1e-35, 1e35]`, the relative error is at most `2.5e-4 + 8e-6 |y|`. -/
-theorem powf_close (fm : Bool) (x y : Nat) (h1 : 8388608 ≤ x) (h2 : x < 2139095040) (hy : Finite y) (hy80 : |toReal y| ≤ 80)
+theorem powf_close_tight (fm : Bool) (x y : Nat) (h1 : 8388608 ≤ x) (h2 : x < 2139095040) (hy : Finite y) (hy80 : |toReal y| ≤ 80)
     (hv1 : 1 / 10 ^ 35 ≤ (toReal x) ^ (toReal y)) (hv2 : (toReal x) ^ (toReal y) ≤ 10 ^ 35) :
     ∃ r, powfFast fm x y = .ok r ∧ Finite r ∧
-      |toReal r - (toReal x) ^ (toReal y)| ≤ (25 / 10 ^ 5 + (8 / 10 ^ 6) * |toReal y|) * (toReal x) ^ (toReal y) := by
+      |toReal r - (toReal x) ^ (toReal y)| ≤ (1832 / 10 ^ 7 + (7914 / 10 ^ 9) * |toReal y|) * (toReal x) ^ (toReal y) := by
   obtain ⟨hlf, hle⟩ := Log2.log2_close fm x h1 h2
   have hu' : u = 1 / 16777216 := u_val
   have he' : eta ≤ 1 / 10 ^ 40 := eta_le
@@ -160,5 +160,16 @@ theorem powf_close (fm : Bool) (x y : Nat) (h1 : 8388608 ≤ x) (h2 : x < 213909
   obtain ⟨r, hr, hrf, hre⟩ := Exp2.exp2_close fm (mul (log2 fm x) y) hzb.1 hzabs
   refine ⟨r, hr, hrf, ?_⟩
   exact (powf_core lh L Y z (toReal r) (X ^ Y) hle hze' hy80 hLy hv hre).2
+
+/-- **`powf`** (fast path, both FMA modes): for every positive normal `x`, every finite `y` with `|y| ≤ 80` whose true
+result lies in `[1e-35, 1e35]`, the relative error is at most `2.5e-4 + 8e-6 |y|`. -/
+theorem powf_close (fm : Bool) (x y : Nat) (h1 : 8388608 ≤ x) (h2 : x < 2139095040) (hy : Finite y) (hy80 : |toReal y| ≤ 80)
+    (hv1 : 1 / 10 ^ 35 ≤ (toReal x) ^ (toReal y)) (hv2 : (toReal x) ^ (toReal y) ≤ 10 ^ 35) :
+    ∃ r, powfFast fm x y = .ok r ∧ Finite r ∧
+      |toReal r - (toReal x) ^ (toReal y)| ≤ (25 / 10 ^ 5 + (8 / 10 ^ 6) * |toReal y|) * (toReal x) ^ (toReal y) := by
+  obtain ⟨r, h1', h2', h3'⟩ := powf_close_tight fm x y h1 h2 hy hy80 hv1 hv2
+  refine ⟨r, h1', h2', le_trans h3' ?_⟩
+  apply mul_le_mul_of_nonneg_right _ (le_trans (by positivity) hv1)
+  nlinarith [abs_nonneg (toReal y)]
 
 end Powf
